@@ -239,6 +239,58 @@ def axisShuffle {β : Type} [Inhabited β] (shape axis : List Nat) (data : List 
       else .error "oracle: one rearrangement of the first free axis per slice expected"
   else .error "oracle: data does not fit shape"
 
+/-! ### axis_shuffle, literally: `for s in sliceaxisix(a.shape, axis): rng.shuffle(a[s])`
+
+`axisShuffle` above is the closed (gather) form; `axisShuffleLoop` is the sequence of in-place shuffles of the
+views `a[s]`.  Lemmas/SamplingAxisLoop proves them equal, the driver runs the loop. -/
+
+/-- does index tuple `m` lie in the view `a[s]`?  (`none` = `slice(None)`) -/
+def matchesT : List (Option Nat) → List Nat → Bool
+  | [], [] => true
+  | none :: t, _ :: m => matchesT t m
+  | some v :: t, c :: m => v == c && matchesT t m
+  | _, _ => false
+
+/-- axis 0 of the view `a[s]`: the first position of `s` that holds `slice(None)` -/
+def viewAxis (t : List (Option Nat)) : Option Nat := t.findIdx? (fun o => o.isNone)
+
+/-- one call `rng.shuffle(a[s])` on the flat content: inside the view, the entry with coordinate `i` along
+    axis 0 of the view takes the value of the entry with coordinate `perm[i]`; outside nothing changes.
+    A view without any axis (0-d item) cannot be shuffled (`none`). -/
+def shuffleView {β : Type} [Inhabited β] (shape : List Nat) (t : List (Option Nat)) (perm : List Nat)
+    (data : List β) : List β :=
+  match viewAxis t with
+  | none => data
+  | some f => (allIdx shape).map (fun m =>
+      if matchesT t m then ndVal shape data (m.set f (perm.getD (m.getD f 0) 0)) else ndVal shape data m)
+
+/-- the whole loop; same validation of the oracle inputs as `axisShuffle` -/
+def axisShuffleLoop {β : Type} [Inhabited β] (shape axis : List Nat) (data : List β) (perms : List (List Nat)) :
+    Except String (List β) :=
+  if data.length = shape.prod then
+    if shape = [] then .error "unsupported" else
+    match firstFree axis shape.length with
+    | none => if sliceKeys shape axis = [] then .ok data else .error "type"
+    | some f =>
+      if perms.length = (sliceKeys shape axis).length ∧ ∀ q ∈ perms, isPerm q (shape.getD f 0) = true then
+        .ok (((sliceTuples axis 0 shape).zip perms).foldl (fun d tp => shuffleView shape tp.1 tp.2 d) data)
+      else .error "oracle: one rearrangement of the first free axis per slice expected"
+  else .error "oracle: data does not fit shape"
+
+/-- the entries of the `axis` argument that can ever equal a depth `len(l)` in `sliceaxisix`: a negative entry
+    never does (the code does not normalise negative axes; it silently ignores them) -/
+def axisEff (axis : List Int) : List Nat :=
+  axis.filterMap (fun z => if 0 ≤ z then some z.toNat else none)
+
+/-- the axes the caller asked for, numpy convention: a negative entry counts from the last axis -/
+def axisReq (ndim : Nat) (axis : List Int) : List Nat :=
+  axis.filterMap (fun z => if 0 ≤ z then some z.toNat else if 0 ≤ z + (ndim : Int) then some (z + (ndim : Int)).toNat else none)
+
+/-- `axis_shuffle` with the `axis` argument as the caller gives it (integers of either sign) -/
+def axisShuffleZ {β : Type} [Inhabited β] (shape : List Nat) (axis : List Int) (data : List β)
+    (perms : List (List Nat)) : Except String (List β) :=
+  axisShuffleLoop shape (axisEff axis) data perms
+
 /-! ## outcross_shuffle (l.198-254) -/
 section outcross
 variable {β : Type} [DecidableEq β]
@@ -291,6 +343,14 @@ def outcross (nrow ncol : Nat) (x : List β) (orders : List (List (Nat × Nat)))
     else .error "oracle: every pass must visit every pair once"
   else .error "oracle: data does not fit shape"
 
+/-- `outcross_shuffle` on a table of any memory layout.  `xravel = xconfig.ravel()` is a view of the table only
+    when the table is C-contiguous; otherwise it is a copy: every exchange is made on the copy,
+    `objfn(xconfig)` never changes, the first pass ends without an improvement and the table is left as it was. -/
+def outcrossNd (cContiguous : Bool) (nrow ncol : Nat) (x : List β) (orders : List (List (Nat × Nat))) :
+    Except String (List β) :=
+  if cContiguous = true then outcross nrow ncol x orders
+  else if x.length = nrow * ncol then .ok x else .error "oracle: data does not fit shape"
+
 end outcross
 
 /-! ## Spec oracles
@@ -340,7 +400,8 @@ def specAxisBad {β : Type} [DecidableEq β] (shape axis : List Nat) (before aft
   (sliceKeys shape axis).filter (fun key =>
     let b := sliceVals shape axis before key
     let c := sliceVals shape axis after key
-    !(b.length == c.length && b.all (fun v => decide (b.count v = c.count v))))
+    !(b.length == c.length && b.all (fun v => decide (b.count v = c.count v))
+        && c.all (fun v => decide (b.count v = c.count v))))
 
 def specAxis {β : Type} [DecidableEq β] (shape axis : List Nat) (before after : List β) : Bool :=
   after.length == before.length && (specAxisBad shape axis before after).isEmpty
@@ -355,6 +416,7 @@ deriving Repr
 
 def specOutcross {β : Type} [DecidableEq β] (nrow ncol : Nat) (before after : List β) : OutcrossVerdict :=
   { multOk := after.length == before.length && before.all (fun v => decide (before.count v = after.count v))
+      && after.all (fun v => decide (before.count v = after.count v))
     rowsWorse := (List.range nrow).filter (fun r => decide (dupCount (row ncol before r) < dupCount (row ncol after r)))
     improving := (allPairs after.length).filter (fun ij =>
       decide (score nrow ncol (swap after ij.1 ij.2) < score nrow ncol after))
